@@ -25,14 +25,18 @@ class Gen:
     """Histories of inputs; every input is a list of toplevel items. Tracks what is defined so that the
     incremental run is (almost always) error-free and every name is defined at most once."""
 
-    def __init__(self, rng, allow_trailing_for):
+    def __init__(self, rng, allow_trailing_for, rich=False):
         self.r = rng
+        self.rich = rich    # also structs and methods (outside the session model's fragment: direct oracle only)
         self.ints = []      # toplevel Int variables
         self.lists = []     # toplevel List<Int> variables
         self.strs = []
         self.funs = []      # (name, arity)
         self.enums = []     # (type, [(variant, has_payload)])
         self.clos = []      # toplevel closure variables (arity 1)
+        self.structs = []   # defined struct types (fields a, b: Int)
+        self.pending_types = []   # (name, "enum"/"struct", variants): a method was sent BEFORE its receiver type
+        self.methods = []   # (receiver type name, kind, variants, method name)
         self.n = 0
         self.allow_trailing_for = allow_trailing_for
 
@@ -56,12 +60,75 @@ class Gen:
             return "%s(%s)" % (r.choice(self.clos), self.int_expr(d + 1))
         if c < 0.94 and self.lists:
             return "%s.len()" % r.choice(self.lists)
+        if c < 0.97 and self.ready_methods():
+            return self.mcall(d)
         return "(if %s < %s { %s } else { %s })" % (self.int_expr(d + 1), self.int_expr(d + 1), self.int_expr(d + 1),
                                                     self.int_expr(d + 1))
+
+    def ready_methods(self):
+        return [m for m in self.methods if m[0] not in [t[0] for t in self.pending_types]]
+
+    def mcall(self, d=1):
+        r = self.r
+        t, kind, vs, mname = r.choice(self.ready_methods())
+        if kind == "struct":
+            recv = "%s{ a: %s, b: %d }" % (t, self.int_expr(d + 1), r.randrange(0, 9))
+        elif kind == "enum":
+            v, pl = r.choice(vs)
+            recv = "%s(%s)" % (v, self.int_expr(d + 1)) if pl else v
+        else:
+            recv = "(%s)" % self.int_expr(d + 1)
+        return "%s.%s()" % (recv, mname)
+
+    def type_def(self, t, kind, vs):
+        if kind == "struct":
+            self.structs.append(t)
+            return "struct", "struct %s { a: Int, b: Int }" % t
+        self.enums.append((t, vs))
+        return "enum", "enum %s { %s }" % (t, ", ".join(v + ("(Int)" if p else "") for v, p in vs))
+
+    def method_item(self):
+        """A method on a user enum / struct / Int. A third of the time the receiver type does not exist yet: its
+        definition is sent by a LATER item (often in a later request); in the concatenated program the loader
+        sorts type definitions before methods, in the incremental run the method is attached to a stub
+        (seeded change C11-1 lost such methods when the real type arrived)."""
+        r = self.r
+        m = self.fresh("m")
+        c = r.random()
+        if c < 0.45:
+            kind = r.choice(["enum", "enum", "struct"])
+            t = self.fresh("Shape" if kind == "enum" else "Rec")
+            vs = [(self.fresh("V"), r.random() < 0.6) for _ in range(r.randrange(1, 4))] if kind == "enum" else None
+            self.pending_types.append((t, kind, vs))
+        elif c < 0.6 and self.enums:
+            kind = "enum"
+            t, vs = r.choice(self.enums)
+        elif c < 0.85 and self.structs:
+            kind, t, vs = "struct", r.choice(self.structs), None
+        else:
+            kind, t, vs = "int", "Int", None
+        if kind == "struct":
+            body = "this.a + this.b + %d" % r.randrange(0, 9)
+        elif kind == "enum":
+            body = "match this { %s }" % ", ".join("%s%s => %s" % (w, "(q)" if wp else "", "q + %d" % i if wp else str(i))
+                                                   for i, (w, wp) in enumerate(vs))
+        else:
+            body = "this * 2 + %d" % r.randrange(0, 9)
+        self.methods.append((t, kind, vs, m))
+        return "method", "method %s(this: %s): Int { %s }" % (m, t, body)
 
     def item(self, last):
         """-> (kind, source text of one toplevel item)"""
         r = self.r
+        if self.pending_types and r.random() < 0.5:
+            return self.type_def(*self.pending_types.pop(0))
+        c = r.random()
+        if c < 0.1 and self.rich:
+            if c < 0.03:
+                return self.type_def(self.fresh("Rec"), "struct", None)
+            return self.method_item()
+        if self.rich and self.ready_methods() and r.random() < 0.2:
+            return "mcall", self.mcall()
         c = r.random()
         if c < 0.14:
             f = self.fresh("f")
@@ -131,9 +198,14 @@ class Gen:
                 kind, src = self.item(last=(j == m - 1))
                 items.append(src)
                 kinds.append(kind)
-            if k == n - 1 and kinds[-1] in ("fun", "enum"):
+            while k == n - 1 and self.pending_types:
+                kind, src = self.type_def(*self.pending_types.pop(0))
+                items.append(src)
+                kinds.append(kind)
+            if k == n - 1 and kinds[-1] in ("fun", "enum", "struct", "method"):
                 # the last input reports a value: end it with an expression
-                items.append(self.int_expr() if not self.lists or self.r.random() < 0.6 else self.r.choice(self.lists))
+                items.append(self.mcall() if self.ready_methods() and self.r.random() < 0.7 else
+                             self.int_expr() if not self.lists or self.r.random() < 0.6 else self.r.choice(self.lists))
                 kinds.append("expr")
             inputs.append("\n".join(items) + "\n")
         return inputs, kinds
@@ -168,7 +240,7 @@ def run(ctx):
     hists = []
     kind_hist = {}
     for i in range(nh):
-        g = Gen(rng, allow_trailing_for=False)
+        g = Gen(rng, allow_trailing_for=False, rich=(i % 3 == 2))
         inputs, kinds = g.history()
         hists.append(inputs)
         for k in kinds:
@@ -177,7 +249,9 @@ def run(ctx):
                 "functions may call earlier functions and read toplevel variables), toplevel lets of Ints, lists and "
                 "closures capturing toplevel variables, assignments and += / -= of earlier variables, prints, while / "
                 "for loops over earlier variables, matches on the user enums, plain expressions calling earlier "
-                "functions and closures. An input never ENDS in a `for` loop (known finding C11/trailing-for-not-run; "
+                "functions and closures; every third history also defines structs and methods on user enums / structs / "
+                "Int, a third of the methods BEFORE their receiver type (sent by a later item), and calls them. "
+                "An input never ENDS in a `for` loop (known finding C11/trailing-for-not-run; "
                 "a fixed sample of such histories is run separately). Each history: n `run` requests vs one request with "
                 "the concatenation, through reftest-json-session. Non-trivial = >= 2 inputs, the incremental run is "
                 "error-free, and a later input uses a name defined or assigned in an earlier one.")
@@ -215,7 +289,7 @@ def run(ctx):
             names = set(re.findall(r"[A-Za-z_]\w*", inp))
             if k > 0 and names & defined:
                 return True
-            defined |= set(re.findall(r"(?:let|fun|enum) (\w+)", inp)) | set(re.findall(r"\b(V\d+)\b", inp))
+            defined |= set(re.findall(r"(?:let|fun|enum|struct|method) (\w+)", inp)) | set(re.findall(r"\b(V\d+)\b", inp))
         return False
     stats = {"error_free": 0, "incremental_error": 0, "inputs_hist": {}}
     model_jobs = []
